@@ -266,6 +266,8 @@ class Executor:
         self.counter = 0
         self.functions_encoded = set()
         self.depth = 0
+        self.stubs = []          # [(compiled regex on the callee text, fn(args) -> (value, panic_term), description)]
+        self.stubs_used = set()
 
     # ---- terms ----
     def fresh(self, sort, hint="t"):
@@ -329,7 +331,15 @@ class Executor:
                 else:
                     fields[k] = self.ite(c, fa, fb)
             return ("agg", var, fields)
-        if a[0] == "unit" and b[0] == "unit":
+        if a[0] in ("unit", "opaque") and b[0] in ("unit", "opaque"):
+            return a
+        # payloads of different enum variants share field slot 0 (Ok(usize) / Err(ParseError)):
+        # a field-less constant on one side is only ever read under its own discriminant
+        def trivial(v):
+            return v[0] in ("unit", "opaque") or (v[0] == "agg" and not v[2])
+        if trivial(a) and not trivial(b):
+            return b
+        if trivial(b) and not trivial(a):
             return a
         raise Unsupported("cannot merge values %s / %s" % (a[0], b[0]))
 
@@ -477,7 +487,13 @@ class Executor:
         if op in ("Shl", "Shr", "ShlUnchecked", "ShrUnchecked"):
             cm = re.match(r"^\(?-? ?(\d+)\)?$", b[1])
             if not cm:
-                raise Unsupported("shift by a non-constant amount")
+                # symbolic amount (MIR asserts amount < bits just before): 2^n as an ite chain
+                if not op.startswith("Shl"):
+                    raise Unsupported("right shift by a non-constant amount")
+                pow2 = "0"
+                for k in range(ty[1] - 1, -1, -1):
+                    pow2 = "(ite (= %s %d) %d %s)" % (b[1], k, 1 << k, pow2)
+                return self.mk_int(self.wrap("(* %s %s)" % (a[1], self.define("Int", pow2)), ty), ty)
             k = int(cm.group(1))
             if op.startswith("Shl"):
                 return self.mk_int(self.wrap("(* %s %d)" % (a[1], 1 << k), ty), ty)
@@ -551,12 +567,27 @@ class Executor:
         if t.startswith("(") and t.endswith(")"):
             parts = split_top(t[1:-1])
             return ("agg", None, {i: self.operand(env, p, fn) for i, p in enumerate(parts)})
-        # ADT constructor `Path(ops)` / `Path::Variant(ops)` / `Path { .. }` is not printed for tuple structs
-        m = re.match(r"^([\w:<>, ']+?)(?:::(\w+))?\((.*)\)$", t)
+        # ADT constructor `Path(ops)` / `Path::<T>::Variant(ops)`: the operand list is the last
+        # balanced (...) group (the path may contain `()` inside its generics)
+        m = None
+        if t.endswith(")"):
+            depth, open_at = 0, -1
+            for idx in range(len(t) - 1, -1, -1):
+                if t[idx] == ")":
+                    depth += 1
+                elif t[idx] == "(":
+                    depth -= 1
+                    if depth == 0:
+                        open_at = idx
+                        break
+            if open_at > 0:
+                prefix = t[:open_at]
+                vm = re.match(r"^(.*?)(?:::(\w+))?$", prefix)
+                m = (vm.group(1), vm.group(2), t[open_at + 1:-1])
         if m:
-            ops = split_top(m.group(3)) if m.group(3).strip() else []
-            name = m.group(1)
-            variant = m.group(2)
+            ops = split_top(m[2]) if m[2].strip() else []
+            name = m[0]
+            variant = m[1]
             var = None
             if variant is not None and variant[0].isupper():
                 var = self.variant_index(name, variant)
@@ -604,6 +635,19 @@ class Executor:
                 raw = "(+ %s %s)" % (a[1], args[1][1])
                 ok = self.in_range(raw, ty)
                 return ("agg", self.define("Int", "(ite %s 1 0)" % ok), {0: self.mk_int(raw, ty)}), "false"
+        m = re.match(r"^<(\w+)as(?:std::convert::)?TryFrom<(\w+)>>::try_from$", c)
+        if m and m.group(1) in INT_TYPES and m.group(2) in INT_TYPES:
+            ty = INT_TYPES[m.group(1)]
+            ok = self.in_range(args[0][1], ty)
+            return ("agg", self.define("Int", "(ite %s 0 1)" % ok), {0: ("int", args[0][1], ty)}), "false"
+        if re.match(r"^<Result<.*>as(?:std::ops::)?Try>::branch$", c):
+            # Ok(v) -> Continue(v) (variant 0), Err(e) -> Break(Err(e)) (variant 1); payload kept as is
+            r = args[0]
+            if r[0] != "agg" or r[1] is None:
+                raise Unsupported("Try::branch on a non-Result")
+            return ("agg", r[1], dict(r[2])), "false"
+        if re.search(r"FromResidual<.*>>::from_residual$", c):
+            return ("agg", "1", {}), "false"
         # derived comparisons on single-field integer newtypes
         m = re.match(r"^<(\w+)as(PartialOrd|PartialEq|Ord)>::(lt|le|gt|ge|eq|ne|clamp|max|min)$", c)
         if m:
@@ -707,12 +751,32 @@ class Executor:
                 ok = "(not %s)" % v[1] if m.group(1) else v[1]
                 r, p = self.exec_block(fn, dest, env, visiting)
                 return r, self.define("Bool", "(or (not %s) %s)" % (ok, p), "p")
-            m = re.match(r"^(.+?) = (.+?)\((.*)\) -> \[return: (bb\d+), unwind", s)
-            if m and not re.match(r"^(Eq|Ne|Lt|Le|Gt|Ge|Add|Sub|Mul|Div|Rem|Shl|Shr|BitAnd|BitOr|BitXor|\w+WithOverflow|\w+Unchecked|Neg|Not|discriminant)$", m.group(2).strip()):
-                dest_place, callee, argtxt, nxt = m.group(1), m.group(2).strip(), m.group(3), m.group(4)
+            m = None
+            cm = re.search(r"\) -> \[return: (bb\d+), unwind", s)
+            if cm and " = " in s:
+                # the argument list is the last balanced (...) group before ` -> [return:`
+                close = cm.start()
+                depth, open_at = 0, -1
+                for idx in range(close, -1, -1):
+                    if s[idx] == ")":
+                        depth += 1
+                    elif s[idx] == "(":
+                        depth -= 1
+                        if depth == 0:
+                            open_at = idx
+                            break
+                eq = s.index(" = ")
+                if open_at > eq:
+                    m = (s[:eq], s[eq + 3:open_at].strip(), s[open_at + 1:close], cm.group(1))
+            if m and not re.match(r"^(Eq|Ne|Lt|Le|Gt|Ge|Add|Sub|Mul|Div|Rem|Shl|Shr|BitAnd|BitOr|BitXor|\w+WithOverflow|\w+Unchecked|Neg|Not|discriminant)$", m[1]):
+                dest_place, callee, argtxt, nxt = m
                 args = [self.operand(env, a, fn) for a in split_top(argtxt)] if argtxt.strip() else []
-                target = self.mir.resolve(callee)
-                if target is not None:
+                stub = next((st for st in self.stubs if st[0].search(callee)), None)
+                target = None if stub else self.mir.resolve(callee)
+                if stub is not None:
+                    self.stubs_used.add(stub[2])
+                    val, pan = stub[1](args)
+                elif target is not None:
                     val, pan = self.call(target, args)
                 else:
                     val, pan = self.std_call(callee, args)
